@@ -35,14 +35,12 @@ func c17(c *q.Ctx) {
 	}
 	ui := c.Fn(mt + "(*Meta).UpdateIrreversibleBlockHeight")
 	if ui != nil {
-		sameKey(c, ui, c.Fn(mt+"(*Meta).LoadIrreversibleBlockHeight"))
 		c.ArgIs(ui, "Batch.Put", -1, "p2", 1, "in the caller's batch")
 		c.StoreIs(ui, "UtxoMeta.IrreversibleBlockHeight", "p1", 2, "the staged and the in-memory value are the requested height")
 		c.Gate(ui, "Batch.Put", q.ToFieldStore("UtxoMeta.IrreversibleBlockHeight"), q.Opt{K1Only: true})
 	}
 	us := c.Fn(mt + "(*Meta).UpdateIrreversibleSlideWindow")
 	if us != nil {
-		sameKey(c, us, c.Fn(mt+"(*Meta).LoadIrreversibleSlideWindow"))
 		c.Guard(us, q.Cond{Canon: "(p1 < 0)", Sense: true}, q.ToCall("Batch.Put"), q.Opt{})
 		c.StoreIs(us, "UtxoMeta.IrreversibleSlideWindow", "p1", 2, "")
 	}
@@ -63,6 +61,7 @@ func c17(c *q.Ctx) {
 		c.StoreIs(nm, "Meta.MetaTmp", "local<UtxoMeta> OR proto.Clone(local<UtxoMeta>)", 2, "MetaTmp ends up a copy of the loaded Meta (the literal's empty message is replaced)")
 	}
 	metaCopiesDistinct(c)
+	metaKeysAgree(c)
 	cur := "meta.(*Meta).GetIrreversibleBlockHeight(p0.meta)"
 	win := "meta.(*Meta).GetIrreversibleSlideWindow(p0.meta)"
 	for _, op := range []struct{ fn, height string }{
@@ -210,4 +209,18 @@ func metaCopiesDistinct(c *q.Ctx) {
 		}
 	}
 	c.Floor("K11", "bcs/ledger/xledger/state/meta::NewMeta", "stores to Meta.Meta / Meta.MetaTmp", n, 6)
+}
+
+// metaKeysAgree (C17, C06): for every chain-governed item of the state meta that has a writer and a loader, the key the
+// writer stages is the key the loader reads - a loader that reads a sibling's record comes up with the zero value
+// after every restart although each block wrote the item atomically.
+func metaKeysAgree(c *q.Ctx) {
+	const mt = "bcs/ledger/xledger/state/meta::"
+	for _, p := range [][2]string{
+		{"UpdateIrreversibleBlockHeight", "LoadIrreversibleBlockHeight"},
+		{"UpdateIrreversibleSlideWindow", "LoadIrreversibleSlideWindow"},
+	} {
+		w, l := c.Fn(mt+"(*Meta)."+p[0]), c.Fn(mt+"(*Meta)."+p[1])
+		sameKey(c, w, l)
+	}
 }
